@@ -85,13 +85,37 @@ func (s *Solver) send(line string) {
 	io.WriteString(s.in, "\n")
 }
 
+type lineRes struct {
+	l   string
+	err error
+}
+
+// readLine reads one line with a watchdog: a solver that does not honour its own timeout is killed.
 func (s *Solver) readLine() (string, error) {
-	l, err := s.out.ReadString('\n')
-	l = strings.TrimSpace(l)
-	if s.Log != nil {
-		fmt.Fprintln(s.Log, "; <- "+l)
+	ch := make(chan lineRes, 1)
+	out := s.out
+	go func() {
+		l, err := out.ReadString('\n')
+		ch <- lineRes{l, err}
+	}()
+	limit := time.Duration(s.timeoutMs)*time.Millisecond + 10*time.Second
+	if s.timeoutMs <= 0 {
+		limit = 10 * time.Minute
 	}
-	return l, err
+	select {
+	case r := <-ch:
+		l := strings.TrimSpace(r.l)
+		if s.Log != nil {
+			fmt.Fprintln(s.Log, "; <- "+l)
+		}
+		return l, r.err
+	case <-time.After(limit):
+		if s.cmd != nil && s.cmd.Process != nil {
+			s.cmd.Process.Kill()
+		}
+		<-ch
+		return "", fmt.Errorf("solver watchdog: no answer within %v", limit)
+	}
 }
 
 // define makes sure t and everything below it has been declared/defined at level 0.
